@@ -103,6 +103,15 @@ def _len(x):
     f = getattr(x, "__pyvc_len__", None)
     if f is not None:
         return f()
+    m = type(x).__dict__.get("__len__") if not isinstance(x, (list, tuple, dict, str, set, bytes, range)) else None
+    if m is None:
+        for k in type(x).__mro__[1:]:
+            if k.__module__.startswith("osyris") and "__len__" in k.__dict__:
+                m = k.__dict__["__len__"]
+                break
+    if m is not None and type(x).__module__.startswith("osyris"):
+        # a user-defined __len__ may return a symbolic length: call it directly, the builtin would demand an int
+        return m(x)
     return len(x)
 
 
